@@ -214,7 +214,7 @@ def eval_cases(ctx, name, text, timeout=600):
     with open(path, "w", encoding="utf-8") as f:
         f.write(text)
     for attempt in (0, 1):
-        rc, out, err, dt = run(["coqc"] + QFLAGS + [path], timeout, cwd=COQ)
+        rc, out, err, dt = run(["coqc", "-noglob"] + QFLAGS + [path], timeout, cwd=COQ)
         if rc == 0 or rc not in (124, 137, -9):
             break
     return rc, clean_noise(out), clean_noise(err), dt
@@ -259,7 +259,10 @@ def gstr(s):
 
 
 def gz(n):
-    return f"({int(n)})%Z"
+    n = int(n)
+    if abs(n) < (1 << 62):
+        return f"({n})%Z"
+    return "(%s0x%x)%%Z" % ("-" if n < 0 else "", abs(n))      # hex numerals parse in linear time
 
 
 def glist(xs):
